@@ -600,3 +600,11 @@ func init() {
 		mutant{Name: "forwarded-return-values-not-checked", Prop: "C12", File: "interp/cfg.go", Old: "\t\t\t\t\tif rt := ft.out(i); rt != nil && !rt.assignableTo(typ) {\n", New: "\t\t\t\t\tif rt := ft.out(i); rt != nil && typ == nil {\n", Rule: "R12.36", Key: "cfg/case:returnStmt/forwarded-values-checked-one-by-one"},
 	)
 }
+
+func init() {
+	addMutants(
+		// D139 reverted
+		mutant{Name: "literal-built-in-place-of-an-error-variable", Prop: "C05", File: "interp/cfg.go", Old: "\t\t\t\t\tif isInterfaceBin(dest.typ) {\n", New: "\t\t\t\t\tif dest.typ.cat == valueT && dest.typ.rtype.Kind() == reflect.Interface {\n", Rule: "R05.19", Key: "cfg/case:assignStmt/literal-in-place#1/not-for-compiled-interfaces-nor-error"},
+		mutant{Name: "benign-literal-skip-spelt-out", Prop: "C05", File: "interp/cfg.go", Old: "\t\t\t\t\tif isInterfaceBin(dest.typ) {\n", New: "\t\t\t\t\tif dest.typ.cat == errorT || dest.typ.cat == valueT && dest.typ.rtype.Kind() == reflect.Interface {\n", Benign: true},
+	)
+}
